@@ -130,6 +130,91 @@ func traversalSignature(info *types.Info, fd *ast.FuncDecl, action map[string]bo
 	return s
 }
 
+// numActions returns the recognisers of the numbering action (printer side:
+// whatever function, method or closure calls SetID on its own parameter) and of
+// the indexing action (parser side: whatever stores its last argument into
+// funcGen.locals).
+func (c *Ctx) numActions() (printerAct, parserAct func(p *packages.Package, call *ast.CallExpr) (ast.Expr, bool)) {
+	// the action: on the printer side whatever function, method or closure calls SetID on
+	// its own parameter; on the parser side whatever stores its last argument into funcGen.locals
+	setsIDOnParam := func(info *types.Info, ft *ast.FuncType, body *ast.BlockStmt) bool {
+		params := map[types.Object]bool{}
+		for _, f := range ft.Params.List {
+			for _, nm := range f.Names {
+				params[info.Defs[nm]] = true
+			}
+		}
+		found := false
+		ast.Inspect(body, func(n ast.Node) bool {
+			if call, ok := n.(*ast.CallExpr); ok {
+				if se, ok := unparen(call.Fun).(*ast.SelectorExpr); ok && se.Sel.Name == "SetID" {
+					if id, ok := unparen(se.X).(*ast.Ident); ok && params[info.ObjectOf(id)] {
+						found = true
+					}
+				}
+			}
+			return true
+		})
+		return found
+	}
+	irInfo := c.pkg(pkgIR).TypesInfo
+	closureActs := map[types.Object]bool{}
+	c.eachFunc(pkgIR, func(p *packages.Package, fd *ast.FuncDecl, fn *types.Func) {
+		ast.Inspect(fd.Body, func(n ast.Node) bool {
+			if as, ok := n.(*ast.AssignStmt); ok && len(as.Lhs) == 1 && len(as.Rhs) == 1 {
+				if fl, ok := as.Rhs[0].(*ast.FuncLit); ok && setsIDOnParam(irInfo, fl.Type, fl.Body) {
+					if id, ok := as.Lhs[0].(*ast.Ident); ok {
+						closureActs[irInfo.ObjectOf(id)] = true
+					}
+				}
+			}
+			return true
+		})
+	})
+	printerAct = func(p *packages.Package, call *ast.CallExpr) (ast.Expr, bool) {
+		if len(call.Args) == 0 {
+			return nil, false
+		}
+		if id, ok := unparen(call.Fun).(*ast.Ident); ok && closureActs[p.TypesInfo.ObjectOf(id)] {
+			return call.Args[0], true
+		}
+		if callee := calleeOf(p.TypesInfo, call); callee != nil && callee.Pkg() != nil && callee.Pkg().Path() == pkgIR {
+			if fd := c.funcDecl(callee); fd != nil && fd.Body != nil && setsIDOnParam(c.declPkg[fd].TypesInfo, fd.Type, fd.Body) {
+				return call.Args[0], true
+			}
+		}
+		return nil, false
+	}
+	parserAct = func(p *packages.Package, call *ast.CallExpr) (ast.Expr, bool) {
+		if len(call.Args) == 0 {
+			return nil, false
+		}
+		callee := calleeOf(p.TypesInfo, call)
+		if callee == nil || callee.Pkg() == nil || callee.Pkg().Path() != pkgASM {
+			return nil, false
+		}
+		fd := c.funcDecl(callee)
+		if fd == nil || fd.Body == nil {
+			return nil, false
+		}
+		ci := c.declPkg[fd].TypesInfo
+		stores := false
+		ast.Inspect(fd.Body, func(n ast.Node) bool {
+			if as, ok := n.(*ast.AssignStmt); ok && len(as.Lhs) == 1 {
+				if ix, ok := unparen(as.Lhs[0]).(*ast.IndexExpr); ok && mapFieldName(ci, ix.X) == "funcGen.locals" {
+					stores = true
+				}
+			}
+			return true
+		})
+		if !stores {
+			return nil, false
+		}
+		return call.Args[len(call.Args)-1], true
+	}
+	return printerAct, parserAct
+}
+
 func ruleNUMSHAPE(c *Ctx) []Obligation {
 	var obs []Obligation
 	assign := c.lookupFunc(pkgIR, "Func.AssignIDs")
@@ -164,50 +249,14 @@ func ruleNUMSHAPE(c *Ctx) []Obligation {
 	if ifd == nil {
 		return []Obligation{{Key: "parser-side indexing traversal", Verdict: UNDECIDED, Detail: "no function of package asm ranges over a function's Params, Blocks and Insts"}}
 	}
-	// the action of the printer side is the closure assigned in AssignIDs; of the parser side the registering method
-	aAct, iAct := map[string]bool{}, map[string]bool{}
-	ast.Inspect(afd.Body, func(n ast.Node) bool {
-		if as, ok := n.(*ast.AssignStmt); ok && len(as.Rhs) == 1 {
-			if _, ok := as.Rhs[0].(*ast.FuncLit); ok {
-				aAct[exprString(as.Lhs[0])] = true
-			}
-		}
-		return true
-	})
-	// parser action: the call that appears inside `range Params`
-	ast.Inspect(ifd.Body, func(n ast.Node) bool {
-		if rs, ok := n.(*ast.RangeStmt); ok {
-			if se, ok := unparen(rs.X).(*ast.SelectorExpr); ok && se.Sel.Name == "Params" {
-				ast.Inspect(rs.Body, func(m ast.Node) bool {
-					if call, ok := m.(*ast.CallExpr); ok {
-						if se, ok := unparen(call.Fun).(*ast.SelectorExpr); ok {
-							iAct[se.Sel.Name] = true
-						}
-					}
-					return true
-				})
-			}
-		}
-		return true
-	})
-	delete(iAct, "WithStack")
-	sa := traversalSignature(c.pkg(pkgIR).TypesInfo, afd, aAct)
-	si := traversalSignature(c.pkg(pkgASM).TypesInfo, ifd, iAct)
-	// the parser registers the local under a derived identifier: its last argument is the value; both count as act(...)
-	norm := func(s string) string {
-		for {
-			i := strings.Index(s, "act(")
-			if i < 0 {
-				return s
-			}
-			j := strings.Index(s[i:], ")")
-			s = s[:i] + "act" + s[i+j+1:]
-		}
-	}
-	o := Obligation{Key: fmt.Sprintf("%s ≅ %s", funcKey(assign), funcKey(idx)), Pos: c.pos(ifd.Pos()), Verdict: OK, Detail: "both: " + norm(sa)}
+	printerAct, parserAct := c.numActions()
+	sa := c.numSignature(afd, printerAct)
+	si := c.numSignature(ifd, parserAct)
+	norm := func(s string) string { return s }
+	o := Obligation{Key: fmt.Sprintf("%s ≅ %s", funcKey(assign), funcKey(idx)), Pos: c.pos(ifd.Pos()), Verdict: OK, Detail: "both: " + sa}
 	switch {
-	case !strings.Contains(sa, "range Blocks{") || !strings.Contains(si, "range Blocks{"):
-		o.Verdict, o.Detail = UNDECIDED, fmt.Sprintf("traversal shape not recognised: printer %q, parser %q", sa, si)
+	case !strings.Contains(sa, "Blocks{") || !strings.Contains(si, "Blocks{") || !strings.Contains(sa, "act(") || !strings.Contains(si, "act("):
+		o.Verdict, o.Detail = UNDECIDED, fmt.Sprintf("traversal not recognised: printer %q, parser %q", sa, si)
 	case norm(sa) != norm(si):
 		o.Verdict = VIOL
 		o.Detail = fmt.Sprintf("the printer numbers %q but the parser indexes %q: a %%N in the input is bound to a different value than the one the printer calls %%N", norm(sa), norm(si))
@@ -391,46 +440,87 @@ func ruleNUMREDERIVE(c *Ctx) []Obligation {
 			key += fmt.Sprintf(" #%d", ordN[sc.fd])
 		}
 		o := Obligation{Key: key, Pos: c.pos(sc.call.Pos()), Verdict: OK}
-		arg, ok := unparen(sc.arg).(*ast.Ident)
-		if !ok {
+		var obj types.Object
+		isFieldCounter := false
+		switch a := unparen(sc.arg).(type) {
+		case *ast.Ident:
+			obj = info.ObjectOf(a)
+		case *ast.SelectorExpr:
+			// a counter kept in a field of a helper object (method-object form of the traversal)
+			if sel, ok := info.Selections[a]; ok && sel.Kind() == types.FieldVal {
+				obj, isFieldCounter = info.ObjectOf(a.Sel), true
+			}
+		}
+		if obj == nil {
 			o.Verdict, o.Detail = VIOL, "the stored ID is "+exprString(sc.arg)+", not a plain position counter"
 			obs = append(obs, o)
 			continue
 		}
-		obj := info.ObjectOf(arg)
+		isCounter := func(e ast.Expr) bool {
+			switch x := unparen(e).(type) {
+			case *ast.Ident:
+				return info.ObjectOf(x) == obj
+			case *ast.SelectorExpr:
+				return isFieldCounter && info.ObjectOf(x.Sel) == obj
+			}
+			return false
+		}
 		// all definitions / updates of the counter
 		var inits, incs, others []string
 		var incPositions []token.Pos
-		ast.Inspect(sc.fd.Body, func(n ast.Node) bool {
-			switch n := n.(type) {
-			case *ast.AssignStmt:
-				for i, l := range n.Lhs {
-					if id, ok := l.(*ast.Ident); ok && info.ObjectOf(id) == obj {
-						rhs := ""
-						if len(n.Rhs) == 1 && len(n.Lhs) > 1 {
-							rhs = exprString(n.Rhs[0])
-						} else if i < len(n.Rhs) {
-							rhs = exprString(n.Rhs[i])
-						}
-						if n.Tok == token.DEFINE {
-							inits = append(inits, rhs)
-						} else {
-							others = append(others, exprString(n.Lhs[i])+" "+n.Tok.String()+" "+rhs)
+		scanBodies := []*ast.BlockStmt{sc.fd.Body}
+		if isFieldCounter {
+			// a field can be written anywhere in the package; it starts at its zero value unless a
+			// composite literal initialises it
+			scanBodies = nil
+			inits = append(inits, "0")
+			c.eachFunc(pkgIR, func(_ *packages.Package, fd *ast.FuncDecl, _ *types.Func) {
+				scanBodies = append(scanBodies, fd.Body)
+				ast.Inspect(fd.Body, func(n ast.Node) bool {
+					if kv, ok := n.(*ast.KeyValueExpr); ok {
+						if id, ok := kv.Key.(*ast.Ident); ok && info.ObjectOf(id) == obj {
+							inits = append(inits, exprString(kv.Value))
 						}
 					}
-				}
-			case *ast.IncDecStmt:
-				if id, ok := unparen(n.X).(*ast.Ident); ok && info.ObjectOf(id) == obj {
-					if n.Tok == token.INC {
-						incs = append(incs, c.pos(n.Pos()))
-						incPositions = append(incPositions, n.Pos())
-					} else {
-						others = append(others, exprString(n.X)+"--")
-					}
-				}
+					return true
+				})
+			})
+			if len(inits) == 2 && inits[1] == "0" {
+				inits = inits[:1]
 			}
-			return true
-		})
+		}
+		for _, body := range scanBodies {
+			ast.Inspect(body, func(n ast.Node) bool {
+				switch n := n.(type) {
+				case *ast.AssignStmt:
+					for i, l := range n.Lhs {
+						if isCounter(l) {
+							rhs := ""
+							if len(n.Rhs) == 1 && len(n.Lhs) > 1 {
+								rhs = exprString(n.Rhs[0])
+							} else if i < len(n.Rhs) {
+								rhs = exprString(n.Rhs[i])
+							}
+							if n.Tok == token.DEFINE {
+								inits = append(inits, rhs)
+							} else {
+								others = append(others, exprString(n.Lhs[i])+" "+n.Tok.String()+" "+rhs)
+							}
+						}
+					}
+				case *ast.IncDecStmt:
+					if isCounter(n.X) {
+						if n.Tok == token.INC {
+							incs = append(incs, c.pos(n.Pos()))
+							incPositions = append(incPositions, n.Pos())
+						} else {
+							others = append(others, exprString(n.X)+"--")
+						}
+					}
+				}
+				return true
+			})
+		}
 		// the metadata routine draws from a closure `nextID()` instead of a plain counter
 		if len(inits) == 1 && strings.HasSuffix(inits[0], "()") {
 			o.Detail = "ID drawn from " + inits[0] + " (monotone counter that skips used IDs: MD-ASSIGN)"
@@ -497,6 +587,51 @@ func ruleNUMREDERIVE(c *Ctx) []Obligation {
 
 // ---------------------------------------------------------------------------
 
+// idSpaceOfMethod: which ID space a numbering routine serves — decided by the receiver of
+// the method (Func: local, Module: global) or, for a helper (method object, extracted step),
+// by the receivers of the methods that call it.
+func (c *Ctx) idSpaceOfMethod(fn *types.Func, visiting map[*types.Func]bool, depth int) string {
+	if fn == nil || visiting[fn] || depth > 3 {
+		return "?"
+	}
+	visiting[fn] = true
+	defer delete(visiting, fn)
+	if sig := fn.Type().(*types.Signature); sig.Recv() != nil {
+		if n := namedOf(sig.Recv().Type()); n != nil {
+			switch n.Obj().Name() {
+			case "Func":
+				return "local"
+			case "Module":
+				return "global"
+			}
+		}
+	}
+	spaces := map[string]bool{}
+	if fn.Pkg() != nil {
+		c.eachFunc(fn.Pkg().Path(), func(p *packages.Package, fd *ast.FuncDecl, caller *types.Func) {
+			if caller == fn {
+				return
+			}
+			calls := false
+			ast.Inspect(fd.Body, func(n ast.Node) bool {
+				if call, ok := n.(*ast.CallExpr); ok && calleeOf(p.TypesInfo, call) == fn {
+					calls = true
+				}
+				return true
+			})
+			if calls {
+				spaces[c.idSpaceOfMethod(caller, visiting, depth+1)] = true
+			}
+		})
+	}
+	if len(spaces) == 1 {
+		for s := range spaces {
+			return s
+		}
+	}
+	return "?"
+}
+
 func ruleNUMAUTH(c *Ctx) []Obligation {
 	var obs []Obligation
 	// authorities: functions (outside the identifier types' own methods) calling SetID with a counter-derived argument
@@ -523,6 +658,10 @@ func ruleNUMAUTH(c *Ctx) []Obligation {
 					}
 					if id, ok := e.(*ast.Ident); ok {
 						counters[info.ObjectOf(id)] = true
+					}
+					// a counter kept in a field of a helper object (a.next++)
+					if se, ok := e.(*ast.SelectorExpr); ok {
+						counters[info.ObjectOf(se.Sel)] = true
 					}
 				}
 				return true
@@ -586,14 +725,7 @@ func ruleNUMAUTH(c *Ctx) []Obligation {
 					space = "metadata"
 				case types.IsInterface(t):
 					// namedVar: decided by the enclosing method's receiver
-					if sig := fn.Type().(*types.Signature); sig.Recv() != nil {
-						switch namedOf(sig.Recv().Type()).Obj().Name() {
-						case "Func":
-							space = "local"
-						case "Module":
-							space = "global"
-						}
-					}
+					space = c.idSpaceOfMethod(fn, map[*types.Func]bool{}, 0)
 				}
 				auths = append(auths, auth{fn, call.Pos(), space})
 				return true
@@ -669,27 +801,51 @@ func init() {
 
 // rangeOrder lists, in source order, the receiver fields a function ranges over (top-level and nested).
 func rangeOrder(info *types.Info, fd *ast.FuncDecl, fields map[string]bool) []string {
+	return rangeOrderCtx(nil, info, fd, fields, map[string]bool{}, 0)
+}
+
+// rangeOrderCtx lists, in execution order, the first range over each of the
+// receiver's fields; calls of methods on the same receiver are followed (a
+// printer split into section methods).
+func rangeOrderCtx(c *Ctx, info *types.Info, fd *ast.FuncDecl, fields map[string]bool, seen map[string]bool, depth int, skip ...*ast.FuncDecl) []string {
 	var recv types.Object
 	if fd.Recv != nil && len(fd.Recv.List) == 1 && len(fd.Recv.List[0].Names) == 1 {
 		recv = info.Defs[fd.Recv.List[0].Names[0]]
 	}
 	var out []string
-	seen := map[string]bool{}
 	ast.Inspect(fd.Body, func(n ast.Node) bool {
-		rs, ok := n.(*ast.RangeStmt)
-		if !ok {
-			return true
+		switch n := n.(type) {
+		case *ast.RangeStmt:
+			se, ok := unparen(n.X).(*ast.SelectorExpr)
+			if !ok {
+				return true
+			}
+			id, ok := unparen(se.X).(*ast.Ident)
+			if !ok || info.ObjectOf(id) != recv || !fields[se.Sel.Name] || seen[se.Sel.Name] {
+				return true
+			}
+			seen[se.Sel.Name] = true
+			out = append(out, se.Sel.Name)
+		case *ast.CallExpr:
+			if c == nil || depth >= 2 {
+				return true
+			}
+			se, ok := unparen(n.Fun).(*ast.SelectorExpr)
+			if !ok {
+				return true
+			}
+			if id, ok := unparen(se.X).(*ast.Ident); !ok || info.ObjectOf(id) != recv {
+				return true
+			}
+			if hfd := c.funcDecl(calleeOf(info, n)); hfd != nil && hfd != fd && hfd.Recv != nil {
+				for _, sk := range skip {
+					if sk == hfd {
+						return true
+					}
+				}
+				out = append(out, rangeOrderCtx(c, c.declPkg[hfd].TypesInfo, hfd, fields, seen, depth+1, skip...)...)
+			}
 		}
-		se, ok := unparen(rs.X).(*ast.SelectorExpr)
-		if !ok {
-			return true
-		}
-		id, ok := unparen(se.X).(*ast.Ident)
-		if !ok || info.ObjectOf(id) != recv || !fields[se.Sel.Name] || seen[se.Sel.Name] {
-			return true
-		}
-		seen[se.Sel.Name] = true
-		out = append(out, se.Sel.Name)
 		return true
 	})
 	return out
@@ -706,7 +862,9 @@ func ruleNUMORDER(c *Ctx) []Obligation {
 	if num == nil || wt == nil {
 		o.Verdict, o.Detail = UNDECIDED, "AssignGlobalIDs / WriteTo not found"
 	} else {
-		a, b := rangeOrder(info, num, fields), rangeOrder(info, wt, fields)
+		// the printer's order is read off WriteTo and the section methods it calls — not off the
+		// numbering routine, which WriteTo calls first
+		a, b := rangeOrderCtx(c, info, num, fields, map[string]bool{}, 0), rangeOrderCtx(c, info, wt, fields, map[string]bool{}, 0, num)
 		o.Pos = c.pos(num.Pos())
 		if strings.Join(a, ",") != strings.Join(b, ",") {
 			o.Verdict = VIOL
@@ -724,7 +882,20 @@ func ruleNUMORDER(c *Ctx) []Obligation {
 		o2.Verdict, o2.Detail = UNDECIDED, "AssignIDs / Block.LLString not found"
 	} else {
 		o2.Pos = c.pos(fnum.Pos())
-		a := rangeOrder(info, fnum, map[string]bool{"Params": true, "Blocks": true})
+		pact, _ := c.numActions()
+		sig := c.numSignature(fnum, pact)
+		var a []string
+		if i, j := strings.Index(sig, "Params{"), strings.Index(sig, "Blocks{"); i >= 0 && j >= 0 {
+			if i < j {
+				a = []string{"Params", "Blocks"}
+			} else {
+				a = []string{"Blocks", "Params"}
+			}
+		}
+		numInstBeforeTerm := func() bool {
+			i, t := strings.Index(sig, "Insts{"), strings.Index(sig, "act(Term")
+			return i >= 0 && t >= 0 && i < t
+		}
 		// within a block: Insts before Term, in both
 		instBeforeTerm := func(fd *ast.FuncDecl) bool {
 			var pi, pt token.Pos
@@ -745,7 +916,7 @@ func ruleNUMORDER(c *Ctx) []Obligation {
 		switch {
 		case strings.Join(a, ",") != "Params,Blocks":
 			o2.Verdict, o2.Detail = VIOL, fmt.Sprintf("locals are numbered in the order %v; LLVM numbers parameters first, then blocks in layout order", a)
-		case !instBeforeTerm(fnum) || !instBeforeTerm(blockLL):
+		case !numInstBeforeTerm() || !instBeforeTerm(blockLL):
 			o2.Verdict, o2.Detail = VIOL, "within a block, instructions must be numbered and printed before the terminator"
 		default:
 			o2.Detail = "Params, Blocks{Insts, Term} in numbering and printing"
